@@ -102,8 +102,7 @@ def classifyBlock (specs : List Spec) (y : Out) (g : List (Res (CV × BT))) : St
     | _, _, _ => "block-interplay"
   let ys := showOut y
   let gs := showOut (outGo g)
-  if ys == "reject|crash" then "const-reject-retry"
-  else if ys == gs then "-"
+  if ys == gs || (ys == "reject|crash" && gs == "reject") then "-"
   else match y with
     | .unm w => "unmodelled:" ++ w
     | _ => go 0 stages resolved g
